@@ -127,6 +127,109 @@ def variants(seed: int) -> list[dict[str, Any]]:
     ]
 
 
+# --------------------------------------------------------------------------
+# "crowded" process environments: the judged ECU is not the only RandomUDSServer of its interpreter.
+# Neighbour indices (case["pool"]): 0 another seed AND other arguments, 1 the same seed with other arguments,
+# 2 another seed with the same arguments, 3 an exact twin (same seed, same arguments).
+# The plans are interpreted by c16_child.Crowd; they only say WHEN other ECUs are constructed / set up / used
+# relative to the judged one: before it exists, between its construction and its setup(), between its setup() and
+# its first request, between two of its requests, around its restarts, concurrently (asyncio.gather).
+
+CROWD_PLANS: list[dict[str, Any]] = [
+    # B first: others are built, set up and used, THEN the judged ECU starts; they stay in use around its restarts
+    {"name": "neighbours-first",
+     "start": [["new", 0], ["req", 0, 40], ["new", 1], ["new", 3], ["req", 1, 15], ["req", 3, 15]],
+     "restart": [["req", 0, 6], ["req", 1, 3]], "end": [["req", 0, 10], ["req", 3, 10]]},
+    # A.setup, B.setup, A.history
+    {"name": "setup-then-neighbours",
+     "ready": [["new", 0], ["req", 0, 30], ["new", 2], ["req", 2, 10]],
+     "restarted": [["new", 1], ["req", 1, 5]], "end": [["req", 0, 5]]},
+    # constructed side by side, set up in between
+    {"name": "built-side-by-side",
+     "start": [["create", 0], ["create", 1]], "created": [["setup", 0], ["create", 2]],
+     "ready": [["setup", 1], ["setup", 2], ["req", 1, 8], ["req", 0, 8]],
+     "restart": [["create", 0], ["create", 3]], "recreated": [["setup", 0]], "restarted": [["setup", 3], ["req", 3, 4]]},
+    # A.setup, A.part, B.setup, B.requests, A.rest (several positions)
+    {"name": "mid-history",
+     "at": [[0.02, [["new", 0], ["req", 0, 20]]], [0.35, [["new", 1], ["req", 1, 25], ["req", 0, 5]]],
+            [0.7, [["new", 3], ["req", 3, 20], ["new", 2], ["req", 2, 10]]], [0.93, [["new", 0], ["req", 0, 5]]]],
+     "restart": [["req", 1, 3]]},
+    # all alive from the start, requests interleaved one by one, a late comer half way
+    {"name": "interleaved",
+     "start": [["create", 0], ["create", 1], ["create", 2], ["create", 3]],
+     "ready": [["setup", 3], ["setup", 1], ["setup", 2], ["setup", 0]],
+     "every": [5, 1], "at": [[0.5, [["new", 0]]]], "restarted": [["new", 2]]},
+    # setups and requests as concurrent tasks of one event loop
+    {"name": "concurrent-tasks",
+     "start": [["create", 0], ["create", 1], ["create", 2]], "gather": {"before": [0, 1], "after": [2]},
+     "ready": [["req", 0, 10], ["req", 2, 10]], "every": [9, 2, "concurrent"], "restarted": [["new", 3], ["req", 3, 5]]},
+]
+# process settings of the crowd runs (hash seed, import order, construction path, pacing, global RNG): as varied
+# as those of the lone runs
+_CROWD_PROC = [("11", "server", False, None, False), ("12", "commands", True, 4.0, False), ("13", "server", False, 0.3, True),
+               ("14", "commands", False, None, False), ("15", "server", True, 0.3, False), ("16", "server", False, 4.0, True)]
+
+
+def crowd_variants(seed: int, mutant: str | None = None) -> list[dict[str, Any]]:
+    """run 1 = the twin that lives alone in its interpreter; runs 2.. = one crowded process per plan"""
+    rnd = random.Random(seed + 1613)
+    out: list[dict[str, Any]] = [
+        {"name": "alone", "hashseed": "0", "import_first": "server", "clock_base": 1.0e9, "global_seed": None,
+         "via_config": False, "reverse": False, "alone": True}]
+    for plan, (hs, imp, via, pace, gs) in zip(CROWD_PLANS, _CROWD_PROC):
+        v: dict[str, Any] = {"name": "crowd:" + plan["name"], "hashseed": hs, "import_first": imp,
+                             "clock_base": 1.2e9 + rnd.randrange(10**8), "via_config": via, "reverse": False,
+                             "global_seed": rnd.randrange(1, 2**31) if gs else None, "crowd": plan}
+        if pace:
+            v["pace"] = pace
+        if mutant:
+            v["mutant"] = mutant
+            v["name"] += "/" + mutant
+        out.append(v)
+    return out
+
+
+def _spec(c: dict[str, Any], seed: int | None = None) -> dict[str, Any]:
+    return {"seed": c["seed"] if seed is None else seed, "params": c["params"], "behavior": c["behavior"]}
+
+
+def crowd_family(tier: str, seed: int, cases: list[dict[str, Any]], base_id: int = 4_000_000) -> list[dict[str, Any]]:
+    """Judged cases = a spread of the seed x argument family (corner argument sets first); neighbours = other
+    members of the same family."""
+    n = len(cases)
+    picks = [0, 3, 7, 9, 13, 16] if tier == "quick" else sorted(set([0, 3, 7, 9, 13, 16] + list(range(1, n, 9))))
+    out = []
+    for k, i in enumerate(x for x in picks if x < n):
+        c = cases[i]
+        other = next(cases[(i + d) % n] for d in (7, 5, 3, 1, 2) if cases[(i + d) % n]["params"] != c["params"])
+        other2 = next(cases[(i + d) % n] for d in (4, 6, 8, 9, 11) if cases[(i + d) % n]["params"] != c["params"])
+        j = dict(c, id=base_id + k, hist=dict(c["hist"], tour=2, cap=70, sa_segments=3, sweep="short"))
+        j["pool"] = [_spec(other), dict(_spec(other2), seed=c["seed"]), _spec(c, seed=c["seed"] + 1 + k), _spec(c)]
+        j["crowd_of"] = i
+        out.append(j)
+    return out
+
+
+def check_crowd_stats(res: dict[str, dict[int, dict[str, Any]]], vars_: list[dict[str, Any]]) -> dict[str, Any]:
+    """Machinery check: every crowded run really had neighbours that were set up and used."""
+    tot: dict[str, dict[str, int]] = {}
+    for v in vars_:
+        if "crowd" not in v:
+            if any("crowd" in r for r in res[v["name"]].values()):
+                raise Machinery("the lone twin reports a crowd")
+            continue
+        t = tot.setdefault(v["name"], {"created": 0, "setups": 0, "requests": 0, "nb_failed": 0, "skipped": 0})
+        for cid, r in res[v["name"]].items():
+            st = r.get("crowd")
+            if "setup_exc" in r and st is None:
+                continue
+            if not st or st["setups"] < 2 or st["requests"] < 10:
+                raise Machinery(f"crowd run {v['name']} of case {cid} had no working neighbours: {st}")
+            for k in t:
+                t[k] += st.get(k, 0)
+    return tot
+
+
 def gallia_src() -> str:
     return os.environ.get("GALLIA_SRC", "/repo/src")
 
@@ -166,6 +269,20 @@ def run_children(cases: list[dict[str, Any]], vars_: list[dict[str, Any]], chunk
         return res
     finally:
         shutil.rmtree(tmp, ignore_errors=True)
+
+
+def run_crowd(cases: list[dict[str, Any]], vars_: list[dict[str, Any]], workers: int = 6) -> dict[str, dict[int, dict[str, Any]]]:
+    """The lone twin gets an interpreter of its own per case; a crowded interpreter serves a few judged cases one
+    after the other (their neighbours included)."""
+    lone = [v for v in vars_ if "crowd" not in v]
+    crowded = [v for v in vars_ if "crowd" in v]
+    with ThreadPoolExecutor(max_workers=2) as ex:
+        fa = ex.submit(run_children, cases, lone, 1, workers) if lone else None
+        fc = ex.submit(run_children, cases, crowded, 3, workers)
+        res = dict(fc.result())
+        if fa is not None:
+            res.update(fa.result())
+    return res
 
 
 def tlc_run_of(r: dict[str, Any]) -> dict[str, Any]:
